@@ -717,7 +717,10 @@ impl StreamsState {
                 let Some(stream) = self.send.get_mut(&id).and_then(|s| s.as_mut()) else {
                     continue;
                 };
-                if stream.pending.is_fully_acked() && !stream.fin_pending {
+                // A FIN that has already been sent was lost along with the data
+                let fin_sent =
+                    matches!(stream.state, SendState::DataSent { .. }) && !stream.fin_pending;
+                if stream.pending.is_fully_acked() && !stream.fin_pending && !fin_sent {
                     // Stream data can't be acked in 0-RTT, so we must not have sent anything on
                     // this stream
                     continue;
@@ -726,6 +729,7 @@ impl StreamsState {
                     self.pending.push_pending(id, stream.priority);
                 }
                 stream.pending.retransmit_all_for_0rtt();
+                stream.fin_pending |= fin_sent;
             }
         }
     }
